@@ -116,22 +116,13 @@ def entryOf (s : TxPool) (src : Src) (tx : Tx) (stem : Bool) : Except Err Entry 
   if stem then .ok { tx, src } else s.deaggregateTx { tx, src }
 
 theorem isAcceptable_low_fee {c : Ctx} {s : TxPool} {t : Tx} {stem : Bool}
-    (hcap : s.txpool.length ≤ c.cfg.maxPool) (hfee : t.shiftedFee < t.acceptFee c.cfg) :
-    (s.isAcceptable c t stem).isSome = true ∧ s.isAcceptable c t stem ≠ some "OverCapacity" ∨
-    (stem = true ∧ (s.isAcceptable c t stem).isSome = true) := by
+    (hfee : t.shiftedFee < t.acceptFee c.cfg) : s.isAcceptable c t stem = some "LowFee" := by
   unfold TxPool.isAcceptable
-  have h1 : ¬ (s.txpool.length > c.cfg.maxPool) := by omega
-  simp only [h1, if_false, decide_false, Bool.or_false, hfee, if_true]
-  cases stem with
-  | false => left; simp
-  | true =>
-    right
-    refine ⟨rfl, ?_⟩
-    split <;> simp
+  simp [hfee]
 
-/-- fee below the minimum for the weight, pool not over capacity: refused, state unchanged -/
+/-- fee below the minimum for the weight: refused, state unchanged — whatever the fill state of
+the pool (the fee is checked before the capacity) -/
 theorem addCore_refuses_low_fee {c : Ctx} {s : TxPool} (src : Src) (tx : Tx) (stem stemOk : Bool)
-    (hcap : s.txpool.length ≤ c.cfg.maxPool)
     (hfee : ∀ e, entryOf s src tx stem = .ok e → e.tx.shiftedFee < e.tx.acceptFee c.cfg) :
     ∃ er, s.addCore c src tx stem stemOk = (s, some er) := by
   unfold TxPool.addCore
@@ -143,21 +134,14 @@ theorem addCore_refuses_low_fee {c : Ctx} {s : TxPool} (src : Src) (tx : Tx) (st
   simp only []
   split
   · exact ⟨_, rfl⟩
-  have hf := hfee entry hentry
+  have hf := isAcceptable_low_fee (s := s) (stem := stem) (hfee entry hentry)
   split
-  · rename_i hacc
-    cases hs : s.isAcceptable c entry.tx stem with
-    | none => rw [hs] at hacc; simp at hacc
-    | some er => exact ⟨er, rfl⟩
+  · exact ⟨_, by rw [hf]⟩
   · rename_i hacc
     exfalso
     apply hacc
-    rcases isAcceptable_low_fee (stem := stem) hcap hf with ⟨h1, h2⟩ | ⟨h1, h2⟩
-    · simp only [Bool.and_eq_true, Bool.not_eq_eq_eq_not, Bool.not_true, Bool.and_eq_false_imp]
-      refine ⟨?_, h1⟩
-      intro _
-      simpa using h2
-    · subst h1; simp [h2]
+    rw [hf]
+    simp
 
 /-- standalone invalid (bad signature / range proof / sums, over the weight limit, …): refused,
 state unchanged — whatever the capacity -/
